@@ -129,8 +129,9 @@ def model_cell(c):
     if c[0] == "B":
         return "B1" if c[1] else "B0"
     if c[0] == "D":
-        days = (c[1] - datetime.date(1899, 12, 30)).days
-        return "D%d:%d" % (days, c[2])
+        # as civil date: Lean's calendar specification (`excelSerial`) supplies the serial number, so that function is
+        # compared with what xlsxwriter / xlrd make of the same date
+        return "C%d-%d-%d:%d" % (c[1].year, c[1].month, c[1].day, c[2])
     if c[0] == "TIME":
         return "D0:%d" % c[1]
     return "E"
